@@ -141,6 +141,8 @@ def pattern(rng, n, kind=None, density=None):
                     if i != j and ((i >= o + q_ and j >= o + q_) or ((i < o + q_) != (j < o + q_))):
                         pat.add((i, j))
             o = e
+    elif kind == "diag":
+        pass        # the transversal only: no off-diagonal entry at all (A + A' minus the diagonal is empty)
     elif kind == "blockdiag":
         b = rng.randint(2, 5)
         for j in range(n):
